@@ -279,7 +279,7 @@ pub fn cc_soft_cap_multiplier(conn: &SrtlaConnection) -> (r: f64)
 '''
 
 # ------------------------------------------------------------------ stall latch / pull (C13, C12)
-_FRAME_LATCH = C('C01+C12.select.update_stall_latch.touches_only_latch_fields',
+_FRAME_LATCH = C('C01+C04+C12.select.update_stall_latch.touches_only_latch_fields',
                  '''old(self).same_acct(final(self)) && final(self).same_cfg_cache(old(self))
             && final(self).silence_pulled == old(self).silence_pulled && final(self).silence_pulls == old(self).silence_pulls''')
 # ---- C13 [L]: the step contract as one relation over (pre, post, clock, thresholds), and what a chain of decisions amounts to
